@@ -73,6 +73,16 @@ def directed(tier):
                         sends=[dict(side='A', length=10 + pos, at=-1) for pos in range(count)] +
                         ([dict(side='B', length=40 + pos, at=-1) for pos in range(count)] if both else [])))
         idx += 1
+    # many small messages per read: one side's loop runs much less often than the other's, so that each of its 10240-octet reads holds
+    # hundreds of complete segments (or acknowledgements); every one of them is acted on although no further octet may ever arrive
+    # (traffic in one direction only, so that nothing arriving later can cover for messages left behind)
+    for policy in ('starve0', 'starve1', 'burst', 'hold0', 'hold1'):
+        for seg in (100, 20):
+            out.append(dict(id='dir-%d' % idx, seed=idx, policy=policy, capacity=None, cfg_a=dict(segment_size_tx_initial=seg),
+                            cfg_b=dict(segment_size_mru=seg, segment_size_tx_initial=seg),
+                            sends=[dict(side='A', length=40000 if seg == 100 else 12000, at=-1), dict(side='A', length=6, at=-1)] +
+                            ([dict(side='B', length=9000, at=4)] if policy == 'burst' else [])))
+            idx += 1
     # one octet at a time
     for seg in (1, 7, 100):
         out.append(dict(id='dir-%d' % idx, seed=idx, policy='octet', capacity=None, cfg_a=dict(segment_size_tx_initial=seg),
